@@ -175,7 +175,7 @@ Definition mark_md_dirty (s : st) (k : key) (x : sfx) : st :=
 
 (* ---- client operations (store.go) *)
 Definition keys_in {A} (cpl : A -> bool) (sc : scope) (l : list (N * A)) : list N :=
-  map fst (filter (fun kv => negb (oos (cpl (snd kv)) sc)) l).
+  filter (fun k => match get k l with Some v => negb (oos (cpl v) sc) | None => false end) (map fst l).
 
 Definition do_md (s : st) (k : key) (x : sfx) (ov : option bytes) : st * out :=   (* :225 / :261 *)
   match get k (mem s) with
